@@ -50,8 +50,13 @@ def expected(seed, n):
         e[('tree_max', r)] = str(max(inp(seed, x, 6) for x in range(n)))
         e[('tree_union', r)] = ''.join('%d,' % x for x in range(n))
         e[('tree_strcat', r)] = ''.join(sorted(chr(ord('a') + x % 26) for x in range(n)))
-        e[('sum_after_asyncs', r)] = '%d local=%d' % (n * (n * (n + 1) // 2), n * (n + 1) // 2)
+        e[('sum_after_asyncs', r)] = 'local=%d' % (n * (n + 1) // 2)
         e[('prefix_sum', r)] = str(sum(a[:r]))
+        e[('min_after_asyncs', r)] = str(n)
+        e[('max_after_asyncs', r)] = str(n)
+        e[('prefix_sum_after_asyncs', r)] = str(n)
+        e[('logical_and_after_asyncs', r)] = str(n)
+        e[('logical_or_after_asyncs', r)] = str(n)
         e[('prefix_sum_u64', r)] = str(sum(x + 1 for x in range(r)))
         if r <= 1:
             e[('prefix_sum_dbl_big', r)] = str(0 if r == 0 else 4)
